@@ -39,6 +39,7 @@ type AttemptPlan struct {
 	StallAfterStop bool // after a cancel / handler / mapper cause the network delivers nothing more
 	ImmediateError bool // the caller calls Error() right after Stream returns, on the same goroutine
 	LogYield       bool // every Errorf/Infof/Print of the library is a scheduling point (parking logger)
+	ForeignCtx     bool // the caller's context is not a standard-library context type
 	DebugYield     bool // Debugf calls too (several per event: yield points in the middle of event processing)
 }
 
@@ -630,7 +631,12 @@ func (r *Run) runAttempt(idx int, plan AttemptPlan) bool {
 	}
 	r.mu.Unlock()
 	if r.ctx == nil || r.ctx.Err() != nil || plan.FreshStreamer {
-		r.ctx, r.cancel = context.WithCancel(context.Background())
+		if plan.ForeignCtx {
+			fc := newForeignCtx()
+			r.ctx, r.cancel = fc, fc.cancel
+		} else {
+			r.ctx, r.cancel = context.WithCancel(context.Background())
+		}
 		r.allCancels = append(r.allCancels, r.cancel)
 	}
 	ctx := r.ctx
